@@ -473,7 +473,12 @@ func hasBadBytes(payload []byte) bool {
 	walk = func(x any) {
 		switch t := x.(type) {
 		case map[string]any:
-			if attrs, ok := t["attributes"].(map[string]any); ok {
+			// (encoding/json matches the members of the resource object whatever their case)
+			for key, member := range t {
+				attrs, ok := member.(map[string]any)
+				if !ok || !strings.EqualFold(key, "attributes") {
+					continue
+				}
 				for _, name := range []string{"kbytes", "pbytes"} {
 					if val, present := attrs[name]; present {
 						s, isStr := val.(string)
